@@ -197,6 +197,14 @@ Definition spec_guard_b (s : state) (o : op) : bool :=
 
 Definition acyclic_b (h : heap) (g : graph) : bool := negb (has_cycle h g).
 
+(* every operation of the sequence is applied inside its domain and closes no cycle *)
+Fixpoint aguards_ok (s : state) (os : list op) : bool :=
+  match os with
+  | [] => true
+  | o :: t => guard_b s o && acyc_guard_b s o &&
+              match run_op s o with Ok s' => aguards_ok s' t | Raise _ => false end
+  end.
+
 (* ------------------------------------------------------------------ comparison with the code *)
 Inductive obs := OOk (h : heap) (g : graph) | ORaise (e : exn).
 
